@@ -257,16 +257,23 @@ def _expr_batch(batch):
         for j, (t1, t2, v) in enumerate(part):
             lines.append('A%d = %s' % (j, t1))
             lines.append('B%d = %s' % (j, t2))
-        consts = {}
-        rec = impl.assemble_recorded(head + '\n'.join(lines) + '\n', constants=consts)
+        # every other program gets K1 / K2 through the constants dictionary the caller passes in (as a build script that
+        # injects configuration values does) instead of defining them in its text
+        if (k // 100) % 2 == 1:
+            consts = {'K1': 6, 'K2': -3}
+            rec = impl.assemble_recorded('\n'.join(lines) + '\n', constants=consts)
+        else:
+            consts = {}
+            rec = impl.assemble_recorded(head + '\n'.join(lines) + '\n', constants=consts)
         if rec['status'] == 'ok':
             for j, (t1, t2, v) in enumerate(part):
                 res.append((t1, v, rec['constants'].get('A%d' % j), 'ok'))
                 res.append((t2, v, rec['constants'].get('B%d' % j), 'ok'))
         else:
+            pre = (k // 100) % 2 == 1
             for j, (t1, t2, v) in enumerate(part):
                 for t in (t1, t2):
-                    r1 = impl.assemble_recorded(head + 'A = %s\n' % t)
+                    r1 = impl.assemble_recorded(('' if pre else head) + 'A = %s\n' % t, constants={'K1': 6, 'K2': -3} if pre else None)
                     res.append((t, v, r1['constants'].get('A'), r1['status'] if r1['status'] != 'ok' else 'ok'))
     for t1, t2, ok, v in batch:
         if not ok:
